@@ -34,7 +34,7 @@ def cases(tier, seed, args):
         if out[-1]['layout'] == 'F' and (i // 32) % 2 == 0:
             out[-1]['L'] = [[2, 3], [3, 2], [2, 2]][(i // 64) % 3]      # two genuine leading axes: C and Fortran order differ
     # concentration sweeps of the directional normalisers: geometric grid over the whole admissible range, every dimension
-    grid = np.geomspace(1e-3, 499.0, 24 if q else 96)
+    grid = np.geomspace(1e-6, 499.0, 32 if q else 128)
     for D in ((2, 4, 6) if q else (2, 3, 4, 5, 6)):
         for j, kap in enumerate(grid):
             out.append(dict(t='density', dist='watson', D=D, L=[], P=1, seed=int(rng.integers(1 << 30)), cond=1.0,
